@@ -372,6 +372,16 @@ func FieldAccesses(f *ssa.Function, owners map[string]bool) []Access {
 				a := base
 				a.In, a.What = u, "load"
 				out = append(out, a)
+				// contents of a loaded slice: stores into its elements, appends into its
+				// backing array, copies into it - directly or in a callee the slice is
+				// handed to - write the memory the field refers to
+				if _, isSlice := u.Type().Underlying().(*types.Slice); isSlice {
+					if in2, what := backingWrite(u, map[backKey]bool{}); in2 != nil {
+						a2 := base
+						a2.In, a2.Write, a2.What = in2, true, what
+						out = append(out, a2)
+					}
+				}
 				// contents: map updates / deletes on the loaded map
 				for _, r2 := range Referrers(u) {
 					switch m := r2.(type) {
@@ -423,3 +433,80 @@ func FieldAccesses(f *ssa.Function, owners map[string]bool) []Access {
 
 // LockOp is the exported form of lockOp.
 func LockOp(c ssa.CallInstruction) (key, op string, ok bool) { return lockOp(c) }
+
+type backKey struct {
+	f *ssa.Function
+	i int
+}
+
+// backingWrite: an instruction that writes into the backing array of slice v
+// (element store, append with v as the base, copy into v), looking through
+// re-slices and phis and into static callees v is handed to.
+func backingWrite(v ssa.Value, seen map[backKey]bool) (ssa.Instruction, string) {
+	visited := map[ssa.Value]bool{}
+	var found ssa.Instruction
+	what := ""
+	var walk func(x ssa.Value)
+	walk = func(x ssa.Value) {
+		if found != nil || visited[x] {
+			return
+		}
+		visited[x] = true
+		for _, ref := range Referrers(x) {
+			if found != nil {
+				return
+			}
+			switch u := ref.(type) {
+			case *ssa.Slice:
+				if u.X == x {
+					walk(u)
+				}
+			case *ssa.Phi:
+				walk(u)
+			case *ssa.ChangeType:
+				walk(u)
+			case *ssa.IndexAddr:
+				if u.X != x {
+					continue
+				}
+				for _, r2 := range Referrers(u) {
+					if st, ok := r2.(*ssa.Store); ok && st.Addr == ssa.Value(u) {
+						found, what = st, "element store"
+					}
+				}
+			case *ssa.Call:
+				if b, ok := u.Call.Value.(*ssa.Builtin); ok {
+					if (b.Name() == "append" || b.Name() == "copy") && len(u.Call.Args) > 0 && u.Call.Args[0] == x {
+						if b.Name() == "append" && len(u.Call.Args) == 2 {
+							// append(x[:n:n], ...) cannot write into x's array; only a plain base can
+							if sl, ok := x.(*ssa.Slice); ok && sl.Max != nil {
+								continue
+							}
+						}
+						found, what = u, b.Name()+" into the backing array"
+					}
+					continue
+				}
+				sc := u.Call.StaticCallee()
+				if sc == nil || len(sc.Blocks) == 0 {
+					continue
+				}
+				for i, a := range u.Call.Args {
+					if a != x || i >= len(sc.Params) {
+						continue
+					}
+					k := backKey{sc, i}
+					if seen[k] {
+						continue
+					}
+					seen[k] = true
+					if in2, w2 := backingWrite(sc.Params[i], seen); in2 != nil {
+						found, what = u, w2+" in "+sc.Name()
+					}
+				}
+			}
+		}
+	}
+	walk(v)
+	return found, what
+}
